@@ -75,11 +75,18 @@ type ws struct {
 	PlantedBrk  int               `json:"planted_breaking"` // over the targeted files
 	Compile     bool              `json:"compile_problem"`  // in a targeted file
 	Operational string            `json:"operational"`
-	Diff        bool              `json:"format_diff"`  // a targeted file is not formatted
-	Syntax      bool              `json:"syntax_error"` // in a targeted file
+	BadCheck    string            `json:"bad_check_config"` // module whose lint / breaking config names an unknown rule
+	Diff        bool              `json:"format_diff"`      // a targeted file is not formatted
+	Syntax      bool              `json:"syntax_error"`     // in a targeted file
 }
 
 const bufYAML = "version: v2\nlint:\n  use:\n    - FIELD_LOWER_SNAKE_CASE\n    - MESSAGE_PASCAL_CASE\nbreaking:\n  use:\n    - FIELD_NO_DELETE\n"
+
+// badCheckSection is a module-level check configuration that parses but makes the CHECK of that
+// module's image fail: an unknown ID under `except` (an unknown ID under `use` would already fail
+// the check of every other module, because all configurations are passed along as related ones).
+const badCheckSection = "    lint:\n      use:\n        - FIELD_LOWER_SNAKE_CASE\n        - MESSAGE_PASCAL_CASE\n      except:\n        - NOT_A_RULE\n" +
+	"    breaking:\n      use:\n        - FIELD_NO_DELETE\n      except:\n        - NOT_A_RULE\n"
 
 var fileNamePool = []string{"a.proto", "b.proto", "sub/c.proto", "wé \"q\" <x>&.proto", "new\nline.proto", "c:d,e%25.proto", "日本/ファイル.proto", "x y.proto", "q'uote.proto"}
 
@@ -134,7 +141,8 @@ func renderFile(pkg string, imports []string, msgs []msgSpec, formatted bool, ag
 }
 
 var (
-	cmdCycle      = []string{"lint", "format", "breaking", "build"}
+	cmdCycle      = []string{"lint", "format", "breaking", "build", "depgraph"}
+	depInputs     = []string{"dir", "dot"}
 	lintVariants  = []string{"dir", "file", "image", "path", "moddir", "tar", "dot"}
 	brkVariants   = []string{"dir", "limit", "exclimp", "image", "file", "againstbad", "moddir", "imagelimit"}
 	buildOutputs  = []string{"devnull", "stdout", "file", "json", "fds", "blocked"}
@@ -162,6 +170,9 @@ func genWorkspace(r *hx.Rand, i int) ws {
 		w.Input = buildInputs[(k/len(buildOutputs)+k)%len(buildInputs)]
 	case "format":
 		w.Input = formatInputs[k%len(formatInputs)]
+		w.Variant = w.Input
+	case "depgraph":
+		w.Input = depInputs[k%len(depInputs)]
 		w.Variant = w.Input
 	}
 	nFiles := 1 + r.Intn(3)
@@ -241,6 +252,17 @@ func genWorkspace(r *hx.Rand, i int) ws {
 			w.Operational = "bad-flag"
 		}
 	}
+	// a module whose own lint / breaking section names an unknown rule under `except`: the configuration parses,
+	// the CHECK of that module's image fails (an error that is no annotation set, in the check loop,
+	// possibly after another module's annotations were collected)
+	if w.Multi && w.Operational == "" && r.Chance(1, 3) &&
+		(w.Cmd == "lint" && (w.Variant == "dir" || w.Variant == "dot" || w.Variant == "tar") ||
+			w.Cmd == "breaking" && (w.Variant == "dir" || w.Variant == "limit" || w.Variant == "exclimp")) {
+		w.BadCheck = []string{"m1", "m2"}[r.Intn(2)]
+		bad := "  - path: " + w.BadCheck + "\n" + badCheckSection
+		yaml := strings.Replace(w.Files["buf.yaml"], "  - path: "+w.BadCheck+"\n", bad, 1)
+		w.Files["buf.yaml"], w.Against["buf.yaml"] = yaml, yaml
+	}
 	// settle the input selection
 	w.Target = r.Intn(nFiles)
 	w.Mod = []string{"m1", "m2"}[r.Intn(2)]
@@ -272,41 +294,93 @@ func genWorkspace(r *hx.Rand, i int) ws {
 		w.Syntax = w.Syntax || f.Syntax
 		w.Diff = w.Diff || f.Unformatted
 	}
-	ctl, checks := "o", "o"
+	ctl := "o"
 	switch {
 	case w.Operational != "":
 		ctl = "x"
 	case w.Compile:
 		ctl = "a"
 	}
+	// one check per image; a two-module workspace given as a whole yields one image per module
+	// (in buf.yaml order), every other input one image
+	checksFor := func(count func(fileFact) int) string {
+		groups := [][]fileFact{w.targets()}
+		if w.Multi && (w.Input == "dir" || w.Input == "dot" || w.Input == "tar") && !(w.Cmd == "lint" && w.Variant == "image") &&
+			w.Variant != "image" && w.Variant != "imagelimit" {
+			groups = [][]fileFact{nil, nil}
+			for _, f := range w.Facts {
+				if f.Module == "m1" {
+					groups[0] = append(groups[0], f)
+				} else {
+					groups[1] = append(groups[1], f)
+				}
+			}
+		}
+		out := ""
+		for gi, g := range groups {
+			n := 0
+			for _, f := range g {
+				n += count(f)
+			}
+			switch {
+			case w.BadCheck != "" && len(groups) == 2 && w.BadCheck == []string{"m1", "m2"}[gi]:
+				out += "x"
+			case n > 0:
+				out += "a"
+			default:
+				out += "o"
+			}
+		}
+		return out
+	}
 	switch w.Cmd {
 	case "lint":
-		if w.PlantedLint > 0 {
-			checks = "a"
-		}
-		w.ModelLine = "exit\tlint\t" + ctl + "\t" + checks
+		w.ModelLine = "exit\tlint\t" + ctl + "\t" + checksFor(func(f fileFact) int { return f.Lint })
 	case "breaking":
-		if w.PlantedBrk > 0 {
-			checks = "a"
-		}
 		if ctl == "o" {
 			switch {
 			case w.Variant == "againstbad":
 				ctl = "oa" // the against side does not compile: its annotations, status 100
 			case (w.Variant == "image" || w.Variant == "imagelimit") && w.Multi:
-				ctl = "oox" // two input images against the one image file: "input contained 2 images …"
+				ctl = "ooX" // two input images against the one image file: "input contained 2 images …" (directly in run)
 			default:
 				ctl = "oo"
 			}
 		}
-		w.ModelLine = "exit\tbreaking\t" + ctl + "\t" + checks
+		w.ModelLine = "exit\tbreaking\t" + ctl + "\t" + checksFor(func(f fileFact) int { return f.Brk })
 	case "build":
 		if ctl == "o" && w.Variant == "blocked" {
 			ctl = "ox" // GetImage fine, PutImage fails
 		}
 		w.ModelLine = "exit\tbuild\t" + ctl
+	case "depgraph":
+		// GetWorkspace (controller method), then ModuleSetToDAG directly in run: the one place that
+		// calls ModuleDeps() and meets the ImportNotExistError of a missing import
+		anyImport := false
+		for _, f := range w.Facts {
+			anyImport = anyImport || f.Import
+		}
+		switch {
+		case w.Operational != "":
+			ctl = "x"
+		case anyImport:
+			ctl = "oI"
+		default:
+			ctl = "oo"
+		}
+		w.ModelLine = "exit\tdepgraph\t" + ctl
 	}
 	return w
+}
+
+// stepFails: a step of the model line fails with an error that is no annotation set
+// (x / X other error, s system error).
+func (w ws) stepFails() bool {
+	f := strings.Split(w.ModelLine, "\t")
+	if len(f) < 3 {
+		return false
+	}
+	return strings.ContainsAny(strings.Join(f[2:], " "), "xXsS")
 }
 
 // targets is the set of files the input selection makes the command look at.
@@ -345,7 +419,7 @@ func (w ws) inputArgs() []string {
 	case "modref":
 		pos = []string{moduleRefName}
 	}
-	if w.Cmd == "lint" && w.Variant == "image" {
+	if w.Cmd == "lint" && (w.Variant == "image" || w.Variant == "imagenodep") {
 		pos = []string{"../img.binpb"}
 	}
 	switch w.Operational {
@@ -371,6 +445,88 @@ func collisionWorkspace() ws {
 	return ws{Name: "collision", Files: map[string]string{"buf.yaml": bufYAML, "a.proto": b.String()}, Cmd: "lint", Variant: "dir", Input: "dir",
 		Facts:     []fileFact{{Name: "a.proto", Lint: 2}},
 		ModelLine: "exit\tlint\to\ta", PlantedLint: 2, PlantedBrk: 0}
+}
+
+// missingImportWorkspace: a .proto file importing a file that does not exist, through `buf dep
+// graph` - the command that calls ModuleDeps() and so reaches *bufmodule.ImportNotExistError and
+// wrapError's app.WrapError(100, …) for real.
+func missingImportWorkspace() ws {
+	src := "syntax = \"proto3\";\n\npackage a;\n\nimport \"nope/missing.proto\";\n\nmessage A {\n  string x = 1;\n}\n"
+	return ws{Name: "missingimport", Files: map[string]string{"buf.yaml": bufYAML, "a.proto": src}, Cmd: "depgraph", Variant: "dir", Input: "dir",
+		Facts: []fileFact{{Name: "a.proto", Import: true}}, ModelLine: "exit\tdepgraph\toI", Compile: true}
+}
+
+// missingDepImageWorkspace: an image that lacks a dependency (`buf build --path a.proto
+// --exclude-imports`) as input of `buf lint`: the image cannot be linked, which buf reports as a
+// system error ("it looks like you have found a bug …"), status 1.
+func missingDepImageWorkspace() ws {
+	a := "syntax = \"proto3\";\n\npackage a;\n\nimport \"b.proto\";\n\nmessage A {\n  b.B x = 1;\n}\n"
+	b := "syntax = \"proto3\";\n\npackage b;\n\nmessage B {\n  string x = 1;\n}\n"
+	return ws{Name: "imagenodep", Files: map[string]string{"buf.yaml": bufYAML, "a.proto": a, "b.proto": b}, Cmd: "lint", Variant: "imagenodep", Input: "dir",
+		Facts: []fileFact{{Name: "a.proto"}, {Name: "b.proto"}}, ModelLine: "exit\tlint\ts\to", Operational: "image-without-dependency"}
+}
+
+// fixedMultiWorkspace: a two-module workspace with p1 / p2 planted problems in m1 / m2 (camelCase
+// fields for lint, deleted fields for breaking) and optionally an unknown rule in the check
+// configuration of one module: the check lists a…x of the model (annotations collected from one
+// image, then the check of another image fails otherwise - nothing is printed, status 1).
+func fixedMultiWorkspace(cmd string, p1, p2 int, bad string) ws {
+	yaml := strings.Replace(bufYAML, "version: v2\n", "version: v2\nmodules:\n  - path: m1\n  - path: m2\n", 1)
+	if bad != "" {
+		yaml = strings.Replace(yaml, "  - path: "+bad+"\n", "  - path: "+bad+"\n"+badCheckSection, 1)
+	}
+	w := ws{Name: fmt.Sprintf("multi-%s-%d-%d-%s", cmd, p1, p2, bad), Files: map[string]string{"buf.yaml": yaml}, Against: map[string]string{"buf.yaml": yaml},
+		Cmd: cmd, Variant: "dir", Input: "dir", Multi: true, BadCheck: bad}
+	checks := ""
+	for mi, p := range []int{p1, p2} {
+		mod := []string{"m1", "m2"}[mi]
+		ms := msgSpec{name: fmt.Sprintf("M%d", mi)}
+		fact := fileFact{Name: mod + "/" + []string{"a.proto", "b.proto"}[mi], Module: mod}
+		for k := 0; k < p; k++ {
+			if cmd == "lint" {
+				ms.fields = append(ms.fields, fmt.Sprintf("camelCase%d%d", mi, k))
+				fact.Lint++
+			} else {
+				ms.extra = append(ms.extra, fmt.Sprintf("deleted_%d_%d", mi, k))
+				fact.Brk++
+			}
+		}
+		ms.fields = append(ms.fields, fmt.Sprintf("fine_%d", mi))
+		pkg := fmt.Sprintf("pkg%d", mi)
+		w.Files[fact.Name] = renderFile(pkg, nil, []msgSpec{ms}, true, false, false, false)
+		fact.Canonical = w.Files[fact.Name]
+		w.Against[fact.Name] = renderFile(pkg, nil, []msgSpec{ms}, true, true, false, false)
+		w.Facts = append(w.Facts, fact)
+		w.PlantedLint += fact.Lint
+		w.PlantedBrk += fact.Brk
+		switch {
+		case bad == mod:
+			checks += "x"
+		case p > 0:
+			checks += "a"
+		default:
+			checks += "o"
+		}
+	}
+	if cmd == "lint" {
+		w.ModelLine = "exit\tlint\to\t" + checks
+	} else {
+		w.ModelLine = "exit\tbreaking\too\t" + checks
+	}
+	return w
+}
+
+func fixedWorkspaces() []ws {
+	out := []ws{collisionWorkspace(), missingImportWorkspace(), missingDepImageWorkspace()}
+	for _, cmd := range []string{"lint", "breaking"} {
+		out = append(out,
+			fixedMultiWorkspace(cmd, 0, 0, ""), fixedMultiWorkspace(cmd, 2, 0, ""), fixedMultiWorkspace(cmd, 0, 1, ""), fixedMultiWorkspace(cmd, 1, 2, ""),
+			fixedMultiWorkspace(cmd, 1, 0, "m2"), fixedMultiWorkspace(cmd, 0, 1, "m1"), fixedMultiWorkspace(cmd, 0, 0, "m2"), fixedMultiWorkspace(cmd, 2, 2, "m1"))
+	}
+	// two input images against ONE image file: "input contained 2 images, whereas against contained 1" (directly in run)
+	w := fixedMultiWorkspace("breaking", 1, 1, "")
+	w.Name, w.Variant, w.ModelLine = "multi-breaking-image", "image", "exit\tbreaking\tooX\taa"
+	return append(out, w)
 }
 
 type procResult struct {
@@ -524,8 +680,16 @@ func binaryCase(run *hx.Run, idx int, w ws, bufBin, scratch string) int {
 	var head, tail []string
 	outFile := "" // file the command is expected to produce (build)
 	switch w.Cmd {
+	case "depgraph":
+		head = []string{"dep", "graph"}
 	case "lint":
 		head = []string{"lint"}
+		if w.Variant == "imagenodep" {
+			runs++
+			if p := runBuf(bufBin, dir, "build", "--path", "a.proto", "--exclude-imports", "-o", "../img.binpb"); p.exit != 0 {
+				fail("setup-build-failed", fmt.Sprintf("`buf build --path a.proto --exclude-imports`: exit %d, stderr %.300q", p.exit, p.stderr))
+			}
+		}
 		if w.Variant == "image" {
 			runs++
 			if p := runBuf(bufBin, dir, "build", "-o", "../img.binpb"); p.exit != 0 {
@@ -627,7 +791,7 @@ func binaryCase(run *hx.Run, idx int, w ws, bufBin, scratch string) int {
 	var recs []rec
 	if fo.jsonOut != "" || fo.text != "" || fo.msvs != "" || fo.gha != "" {
 		want := -1
-		if !w.Compile && w.Operational == "" && !strings.Contains(w.ModelLine, "x") && w.Variant != "againstbad" {
+		if !w.Compile && w.Operational == "" && !w.stepFails() && w.Variant != "againstbad" {
 			if w.Cmd == "lint" {
 				want = w.PlantedLint
 			} else if w.Cmd == "breaking" {
@@ -665,9 +829,26 @@ func binaryCase(run *hx.Run, idx int, w ws, bufBin, scratch string) int {
 			break
 		}
 	}
+	// an operational error planted in the check of one image (unknown rule under `except`): the
+	// status must be the operational one whatever the other images' checks reported
+	if w.BadCheck != "" && w.Operational == "" && !w.Compile && (ref.exit == 0 || ref.exit == 100) {
+		fail("check-error-swallowed", fmt.Sprintf("the check configuration of module %s is unusable (operational error) but exit=%d, %d annotations printed", w.BadCheck, ref.exit, printed))
+	}
 	// the planted facts must show (harness sanity + property: a planted problem is reported)
-	if w.Operational == "" && !strings.Contains(w.ModelLine, "x") {
+	if w.Operational == "" && !w.stepFails() {
 		planted := w.Compile || w.Variant == "againstbad" || (w.Cmd == "lint" && w.PlantedLint > 0) || (w.Cmd == "breaking" && w.PlantedBrk > 0)
+		if w.Cmd == "depgraph" {
+			// no compilation, no checks: nothing is ever printed as an annotation; a missing import
+			// is the ImportNotExistError of ModuleDeps() - status 100 with a "Failure:" line
+			planted = false
+			wantExit := 0
+			if strings.HasSuffix(w.ModelLine, "I") {
+				wantExit = 100
+			}
+			if ref.exit != wantExit || (wantExit == 100) != failure {
+				fail("import-not-found-verdict", fmt.Sprintf("dep graph: missing import planted=%v but exit=%d failure line=%v stderr=%.200q", wantExit == 100, ref.exit, failure, ref.stderr))
+			}
+		}
 		if planted != (printed > 0) {
 			fail("planted-not-reported", fmt.Sprintf("planted problems=%v but %d annotations printed (exit %d, stderr %.200q)", planted, printed, ref.exit, ref.stderr))
 		}
@@ -755,6 +936,10 @@ func binaryCase(run *hx.Run, idx int, w ws, bufBin, scratch string) int {
 	if w.Multi {
 		run.Count("bin:two-modules")
 	}
+	if w.BadCheck != "" {
+		run.Count("bin:bad-check-config")
+	}
+	run.Count("bin:model-line=" + strings.ReplaceAll(strings.TrimPrefix(w.ModelLine, "exit\t"), "\t", " "))
 	if w.Compile {
 		run.Count("bin:compile-or-import-problem")
 	}
